@@ -24,6 +24,10 @@ fn pool() -> Vec<(Stmt, bool)> {
         (Stmt::Blkw(Lit::dec(2)), false),
         (Stmt::Stringz("ab".into()), false),
         (Stmt::Stringz("é".into()), false),
+        // texts wider than a cell of the breakpoint table whose cut falls inside a 2-byte
+        // character, for either parity of the cell width
+        (Stmt::Stringz("é".repeat(20)), false),
+        (Stmt::Stringz(format!("a{}", "é".repeat(20))), false),
         (Stmt::Push(4), true),
         (Stmt::Rets, true),
     ]
@@ -280,7 +284,7 @@ fn judge_table(printed: &Printed, img: &Image, stack: bool) -> Option<(String, S
     const SHOWN: usize = 26; // characters of a long text that must at least be recognisable
     let orig = img.origin() as u32;
     let n = img.words.len() as u32;
-    if n == 0 || n > 24 {
+    if n == 0 || n > 64 {
         return None;
     }
     let mut script = String::new();
@@ -358,7 +362,7 @@ fn judge_table(printed: &Printed, img: &Image, stack: bool) -> Option<(String, S
 /// Labels whose spelling the command language also reads as something else (radix-prefixed
 /// integers), and a label after the 65535th statement. Each query is its own case, so that every
 /// failing spelling has its own signature.
-fn special_queries() -> Vec<(&'static str, String, String, Option<u16>)> {
+fn special_queries() -> Vec<(&'static str, String, String, Option<u16>, Option<String>)> {
     // (family, source, location token, address the assembler gave it; None = must be refused without panic)
     let mut v = Vec::new();
     let names = ["b1", "o7", "B0", "x", "o", "b", "b2", "xg", "r8", "_1", "2nd", "9", "r7save", "r0_", "R3x", "pcx"];
@@ -368,18 +372,30 @@ fn special_queries() -> Vec<(&'static str, String, String, Option<u16>)> {
     }
     src.push_str("last halt\n");
     for (i, n) in names.iter().enumerate() {
-        v.push(("label-also-readable-as-something-else", src.clone(), n.to_string(), Some(0x3000 + i as u16)));
-        v.push(("label-also-readable-as-something-else", src.clone(), format!("{n}+1"), Some(0x3001 + i as u16)));
+        v.push(("label-also-readable-as-something-else", src.clone(), n.to_string(), Some(0x3000 + i as u16), None));
+        v.push(("label-also-readable-as-something-else", src.clone(), format!("{n}+1"), Some(0x3001 + i as u16), None));
     }
     let far = ".orig x0\n.blkw xFFFF\nend .break\n".to_string();
     for tok in ["end", "end-1", "end+1"] {
-        v.push(("label-after-65535-words", far.clone(), tok.to_string(), None));
+        v.push(("label-after-65535-words", far.clone(), tok.to_string(), None, None));
+    }
+    // statements and labels x8000 words and more from the origin (distances that do not fit a
+    // signed 16-bit quantity), at two origins
+    for (orig, pad) in [(0x3000u16, 0x8000u16), (0x3000, 0xBFF0), (0x0000, 0x8000), (0x0000, 0xFD00), (0x0100, 0x7FFE)] {
+        let src = format!(".orig x{orig:04X}\nfirst and r0, r0, #0\npad .blkw x{pad:04X}\nfar add r1, r2, #3 ; comment\ndata .fill x1234\nlast halt\n");
+        let far = orig + 1 + pad;
+        for (tok, addr, text) in [("far", far, "add r1, r2, #3"), ("data", far + 1, ".fill x1234"), ("last", far + 2, "halt"), ("far+1", far + 1, ".fill x1234"), ("last-2", far, "add r1, r2, #3"), ("pad", orig + 1, ""), ("first", orig, "and r0, r0, #0")] {
+            let text = if tok == "pad" { format!(".blkw x{pad:04X}") } else { text.to_string() };
+            v.push(("statement-x8000-words-from-origin", src.clone(), tok.to_string(), Some(addr), Some(text)));
+        }
+        v.push(("statement-x8000-words-from-origin", src.clone(), format!("x{:04x}", far), Some(far), Some("add r1, r2, #3".into())));
+        v.push(("statement-x8000-words-from-origin", src.clone(), format!("x{:04x}", far - 1), Some(far - 1), Some(format!(".blkw x{pad:04X}"))));
     }
     v
 }
 
-fn judge_special(src: &str, tok: &str, want: Option<u16>) -> Option<(String, String)> {
-    let script = format!("echo Q0;goto {tok};registers;echo Q1;print {tok};echo Q2;break add {tok};echo Q3;exit");
+fn judge_special(src: &str, tok: &str, want: Option<u16>, text: Option<&str>) -> Option<(String, String)> {
+    let script = format!("echo Q0;goto {tok};registers;echo Q1;print {tok};echo Q2;break add {tok};echo Q3;assembly {tok};echo Q4;exit");
     let res = match session(src, Env::new(false), Some(&script), 1_000_000) {
         Ok(r) => r,
         Err(stopped) => return Some((format!("panic/{}", stopped.panic_site()), format!("`goto {tok}`: session stopped with {}", stopped.short()))),
@@ -411,6 +427,13 @@ fn judge_special(src: &str, tok: &str, want: Option<u16>) -> Option<(String, Str
             let word = format!("x{:04x}", obs.machine.mem[addr as usize]);
             if !seg.lines().any(|l| l.trim().eq_ignore_ascii_case(&word)) {
                 return Some((format!("print/{tok}"), format!("`print {tok}` must show {word} (the word at x{addr:04x}); it printed {seg:?}")));
+            }
+            // `assembly <location>` shows the statement that produced the word
+            if let Some(text) = text {
+                let seg = obs.dbg.split("[Q3]\n").nth(1).and_then(|r| r.split("[Q4]").next()).unwrap_or("");
+                if seg != format!("{text}\n") {
+                    return Some((format!("assembly/{}", tok.trim_end_matches(|c: char| c.is_ascii_digit() || c == '+' || c == '-')), format!("`assembly {tok}` (x{addr:04x}) printed {seg:?}, the statement's source text is {text:?}")));
+                }
             }
             let user_breaks: Vec<u16> = obs.breakpoints.clone().unwrap_or_default().iter().filter(|(_, pre)| !pre).map(|(a, _)| *a).collect();
             if user_breaks != vec![addr] {
@@ -531,11 +554,11 @@ pub fn run(ctx: &Ctx) -> i32 {
     let mut acc = Acc::merge_all(parts);
     let special = special_queries();
     let parts = crate::isolate::pooled(None, special.len(), 1, Acc::new, |acc, i| {
-        let (family, src, tok, want) = &special[i];
+        let (family, src, tok, want, text) = &special[i];
         acc.eval("special-labels");
-        let mut v = judge_special(src, tok, *want);
+        let mut v = judge_special(src, tok, *want, text.as_deref());
         if v.is_some() {
-            v = confirm_fresh(|| judge_special(src, tok, *want));
+            v = confirm_fresh(|| judge_special(src, tok, *want, text.as_deref()));
         }
         match v {
             None => {
@@ -544,7 +567,7 @@ pub fn run(ctx: &Ctx) -> i32 {
             }
             Some((sig, what)) => {
                 acc.outcome(format!("violation:special/{sig}"));
-                acc.violation(format!("C17/special/{family}/{sig}"), what, json!({"special": true, "source": src, "token": tok, "want": want}));
+                acc.violation(format!("C17/special/{family}/{sig}"), what, json!({"special": true, "source": src, "token": tok, "want": want, "text": text}));
             }
         }
     });
@@ -577,7 +600,7 @@ pub fn run(ctx: &Ctx) -> i32 {
         ctx,
         acc,
         Level { category: "model_checking", bfs: None },
-        "bounded-exhaustive enumeration: every ordered pair of 17 statement shapes (operand-less, operand-ful, every directive, multi-word, multi-byte strings, stack extension) in 3 arrangements (first statement at byte 0 / labelled with .break between / .orig in the middle), 5 origins (default, x0200, x7FFE crossing x8000, xFD00, x0000), a layout product (case, separators incl. commas, label colon, label on own line, trailing and full-line comments with multi-byte characters, indentation, .end); one debugger session per program queries `assembly` at EVERY address from origin-1 to origin+n+1 and `goto label`, `label+1`, `label-1`, `label+3` for every label; compared with the printer's statement spans and the reference symbol table; a second session in full (non-minimal) output adds a breakpoint at every statement address and one past the program and reads the source column of the `break list` table (same oracle); plus 35 single-query sessions on labels whose spelling the command language can also read as an integer or register (b1, o7, B0, x, o, b, b2, xg, r8, _1, 2nd, 9, r7save, r0_, R3x, pcx, each bare and with +1: goto, print and break add) and on a label after the 65535th word; plus sessions on a source whose statements are long in bytes (g blanks between directive/mnemonic and operand, a string of min(g, 20000) 2-byte characters; g over 21 values around 2^8 and 2^16 and beyond, thorough adds 9 more up to 2^20), querying `assembly` at 10 label-relative locations. non-trivial = sessions in which every query agreed",
+        "bounded-exhaustive enumeration: every ordered pair of 19 statement shapes (operand-less, operand-ful, every directive, multi-word, multi-byte strings, stack extension) in 3 arrangements (first statement at byte 0 / labelled with .break between / .orig in the middle), 5 origins (default, x0200, x7FFE crossing x8000, xFD00, x0000), a layout product (case, separators incl. commas, label colon, label on own line, trailing and full-line comments with multi-byte characters, indentation, .end); one debugger session per program queries `assembly` at EVERY address from origin-1 to origin+n+1 and `goto label`, `label+1`, `label-1`, `label+3` for every label; compared with the printer's statement spans and the reference symbol table; a second session in full (non-minimal) output adds a breakpoint at every statement address and one past the program and reads the source column of the `break list` table (same oracle); plus 35 single-query sessions on labels whose spelling the command language can also read as an integer or register (b1, o7, B0, x, o, b, b2, xg, r8, _1, 2nd, 9, r7save, r0_, R3x, pcx, each bare and with +1: goto, print and break add) and on a label after the 65535th word; 45 more on statements and labels x8000 words and more from the origin (5 origin / padding pairs; goto, print, break add and assembly by label, label+offset and absolute address); plus sessions on a source whose statements are long in bytes (g blanks between directive/mnemonic and operand, a string of min(g, 20000) 2-byte characters; g over 21 values around 2^8 and 2^16 and beyond, thorough adds 9 more up to 2^20), querying `assembly` at 10 label-relative locations. non-trivial = sessions in which every query agreed",
         true,
         &["session-agreed", "long-statements-agreed"],
         &["the printer records the exact byte span of each statement it emits", "minimal-mode debugger text is read through the tee hook"],
@@ -592,7 +615,8 @@ pub fn replay(_ctx: &Ctx, case: &Value) -> Option<Option<String>> {
     if case["special"].as_bool() == Some(true) {
         let (src, tok) = (case["source"].as_str()?.to_string(), case["token"].as_str()?.to_string());
         let want = case["want"].as_u64().map(|w| w as u16);
-        return Some(confirm_fresh(|| judge_special(&src, &tok, want)).map(|(s, w)| format!("{s}: {w}")));
+        let text = case["text"].as_str().map(|t| t.to_string());
+        return Some(confirm_fresh(|| judge_special(&src, &tok, want, text.as_deref())).map(|(s, w)| format!("{s}: {w}")));
     }
     // The AST is not serialised; replay re-runs the generator and finds the program by its text.
     let src = case["source"].as_str()?;
